@@ -1,6 +1,7 @@
 ------------------------------ MODULE MC_derived ------------------------------
 EXTENDS MCDerived
 RemModes    == { <<d, TRUE>> : d \in BOOLEAN }
+AllModes    == { <<d, r>> : d \in BOOLEAN, r \in BOOLEAN }
 PinnedKF    == {"KF1", "KF2", "KF3", "KF4", "KF6"}
 IdealKF     == {}
 NN2         == {1, 2}
